@@ -332,7 +332,11 @@ fn run_xs(w: &[&str], vs: &ViewSpec) -> String {
 }
 
 // mode = <p><l>: p in {0: no DecodeParms, 1: /Predictor 1, u: PNG Up (/Predictor 12 /Columns = row width)},
-//                l in {0: stored blocks, 6: default compression}
+//                l in {0: stored blocks, 6: default compression,
+//                      a..g: default compression with the encoder's WINDOW set to 2^9 .. 2^15 bytes (deflateInit2
+//                            windowBits 9..15): the zlib header then reads 18 xx, 28 xx, .. 78 xx (RFC 1950 CINFO 1..7),
+//                      h: default compression; if the payload has at most 256 bytes (every distance fits the smallest
+//                         window) the header is rewritten to 08 99 (CINFO 0, FLEVEL 2, matching FCHECK)}
 fn run_xz(w: &[&str], vs: &ViewSpec) -> String {
     if w.len() < 4 || w[1].len() != 2 {
         return "bad-case".to_string()
@@ -378,9 +382,19 @@ fn run_xz(w: &[&str], vs: &ViewSpec) -> String {
     } else {
         rows.clone()
     };
-    let mut enc = flate2::write::ZlibEncoder::new(Vec::new(), lvl);
+    let lc = w[1].as_bytes()[1];
+    let mut enc = if (b'a' ..= b'g').contains(&lc) {
+        let c = flate2::Compress::new_with_window_bits(lvl, true, 9 + (lc - b'a'));
+        flate2::write::ZlibEncoder::new_with_compress(Vec::new(), c)
+    } else {
+        flate2::write::ZlibEncoder::new(Vec::new(), lvl)
+    };
     enc.write_all(&payload).unwrap();
-    let content = enc.finish().unwrap();
+    let mut content = enc.finish().unwrap();
+    if lc == b'h' && payload.len() <= 256 && content.len() >= 2 && content[0] == 0x78 && content[1] == 0x9c {
+        content[0] = 0x08;
+        content[1] = 0x99;
+    }
     if m.insert(DictKey::new(b"Filter".to_vec()), name_obj(b"FlateDecode")).is_some() {
         return "bad-case".to_string()
     }
